@@ -35,13 +35,13 @@ theorem ocp_exit_contract (O : Oracles α) (dir : Dir D α) (P : Prob α) (d0 : 
     (hfuel : (run O dir P d0 pr stop oot u0 y mu errz0 gV gQ gS e0).fuelOut = false) :
     ExitOK O P u0 y mu errz0 (run O dir P d0 pr stop oot u0 y mu errz0 gV gQ gS e0) := by
   unfold run at hfuel ⊢
-  cases hi : initState O P d0 pr u0 gV gQ gS e0 with
+  cases hi : initState O P d0 pr stop u0 gV gQ gS e0 with
   | inl t =>
     simp only [hi] at hfuel ⊢
     exact ⟨fun h => absurd h (by simp), fun _ => ⟨rfl, rfl, rfl⟩⟩
   | inr s =>
     simp only [hi] at hfuel ⊢
-    have hs := initState_good O P d0 pr u0 gV gQ gS e0 s hi
+    have hs := initState_good O P d0 pr stop u0 gV gQ gS e0 s hi
     refine mainLoop_ok O dir P pr stop oot u0 y mu errz0 _ s hs.1 hτ ?_ hfuel
     rcases Bool.eq_false_or_eq_true s.fuelOut with hc | hc
     · have := mainLoop_fuelOut_mono O dir P pr stop oot u0 y mu errz0 (pr.maxIter + 2) s hc
